@@ -1000,6 +1000,10 @@ func (c *fctx) call(x *ast.CallExpr) ex {
 			return "(if " + fmt.Sprintf(test, s[1]) + " then some (" + s[0] + " ++ \": not positive\") else none)"
 		})
 	}
+	if key == "slices.Contains" && len(x.Args) == 2 && c.t.leanType(c.typeOf(x.Args[0])) != "" {
+		xs := []ex{c.expr(x.Args[0]), c.expr(x.Args[1])}
+		return c.bindN(xs, func(s []string) string { return "(" + s[0] + ".contains " + s[1] + ")" })
+	}
 	if fn, ok := map[string]string{"strings.TrimPrefix": "goTrimPrefix", "strings.TrimSuffix": "goTrimSuffix", "strings.HasPrefix": "goHasPrefix",
 		"strings.HasSuffix": "goHasSuffix", "strings.SplitN": "goSplitN", "strings.Split": "goSplit", "strings.Contains": "goContains"}[key]; ok {
 		var xs []ex
